@@ -204,6 +204,25 @@ Example C10_fragment_nonvacuous :
   end.
 Proof. cbv zeta. vm_compute. repeat split; discriminate. Qed.
 
+(* IPv4 notation: the normalized form of an IPv4 spelling is a function of the 32-bit value it denotes (one integer in
+   decimal, 0-octal or 0x-hex, or four such parts) - spellings of the same address normalize alike *)
+Theorem C10_equiv_ipv4_partial :
+  forall (int_o : N -> str -> option Z) (a a' : str),
+    ipv4_value int_o a = ipv4_value int_o a' -> normalize_ipv4_address int_o a = normalize_ipv4_address int_o a'.
+Proof. exact normalize_ipv4_same_value. Qed.
+Print Assumptions C10_equiv_ipv4_partial.
+
+(* non-vacuity: 0300.0250.0.01, 192.168.0.1, 3232235521 and 0xC0A80001 denote the same value and all give 192.168.0.1 *)
+Example C10_ipv4_nonvacuous :
+  let io := fun (_ : N) (_ : str) => @None Z in
+  let a := [48; 51; 48; 48; 46; 48; 50; 53; 48; 46; 48; 46; 48; 49] in
+  let b := [49; 57; 50; 46; 49; 54; 56; 46; 48; 46; 49] in
+  let c := [51; 50; 51; 50; 50; 51; 53; 53; 50; 49] in
+  let d := [48; 120; 67; 48; 65; 56; 48; 48; 48; 49] in
+  ipv4_value io a = Some 3232235521%Z /\ ipv4_value io b = ipv4_value io a /\ ipv4_value io c = ipv4_value io a /\
+  ipv4_value io d = ipv4_value io a /\ normalize_ipv4_address io a = Some b /\ normalize_ipv4_address io d = Some b.
+Proof. vm_compute. repeat split. Qed.
+
 (* ---------- the constants of the model are the constants of the source tree ---------- *)
 (* Gen/Consts.v is regenerated from wpull/url.py on every run (fail-closed AST evaluator): the encode sets, the
    forbidden host characters, the C0 set parse rejects and the default-port table of the model are exactly the
